@@ -456,4 +456,129 @@ theorem end_level_eq_core (p : StorageP) (g : Grid) (T : Nat) (prices : Prices) 
     · omega
     · exact hc e h'
 
+/-! ### a feasible point of the portfolio problem is feasible for every asset on the asset's slice -/
+
+theorem blockOffset_pre (pre suf : List AssetProblem) (a : AssetProblem) :
+    blockOffset (pre ++ a :: suf) pre.length = offsetOf pre := by
+  unfold blockOffset offsetOf
+  rw [List.take_left']
+  rfl
+
+theorem getElem_pre (pre suf : List AssetProblem) (a : AssetProblem) (h : pre.length < (pre ++ a :: suf).length) :
+    (pre ++ a :: suf)[pre.length] = a := by
+  simp
+
+theorem pre_length_lt (pre suf : List AssetProblem) (a : AssetProblem) : pre.length < (pre ++ a :: suf).length := by
+  simp
+
+/-- bounds of the portfolio problem ⇒ bounds of the asset on its slice -/
+theorem slice_inBounds (pre suf : List AssetProblem) (a : AssetProblem) (gridI : List Nat) (skip : List String)
+    (hwf : ∀ b ∈ pre ++ a :: suf, b.l.length = b.n ∧ b.u.length = b.n) (x : Vec)
+    (hx : InBounds (assemble (pre ++ a :: suf) gridI skip).l (assemble (pre ++ a :: suf) gridI skip).u x) :
+    InBounds a.l a.u (slice (offsetOf pre) x) := by
+  have e0 : (fun j => x (0 + j)) = x := by funext j; rw [Nat.zero_add]
+  have hx' : InBounds (assembleFrom 0 (pre ++ a :: suf)).l (assembleFrom 0 (pre ++ a :: suf)).u (fun j => x (0 + j)) := by
+    rw [e0]; exact hx
+  have hb := (assembleFrom_inBounds (pre ++ a :: suf) hwf 0 0 x).mp hx' pre.length (pre_length_lt pre suf a)
+  simp only [Nat.zero_add] at hb
+  rw [blockOffset_pre] at hb
+  have e : (pre ++ a :: suf)[pre.length]'(pre_length_lt pre suf a) = a := getElem_pre pre suf a _
+  rw [e] at hb
+  exact hb
+
+/-- relaxed feasibility of the portfolio problem ⇒ relaxed feasibility of the asset on its slice -/
+theorem slice_feasible (pre suf : List AssetProblem) (a : AssetProblem) (gridI : List Nat) (skip : List String)
+    (hwf : ∀ b ∈ pre ++ a :: suf, b.l.length = b.n ∧ b.u.length = b.n) (x : Vec)
+    (hx : (assemble (pre ++ a :: suf) gridI skip).FeasibleRelaxed x) :
+    a.FeasibleRelaxed (slice (offsetOf pre) x) := by
+  have h0 : (assembleFrom 0 (pre ++ a :: suf)).FeasibleRelaxed x := by
+    refine ⟨hx.1, fun r hr => hx.2 r ?_⟩
+    show r ∈ (assembleFrom 0 (pre ++ a :: suf)).rows ++ _
+    exact List.mem_append_left _ hr
+  have hb := (assembleFrom_feasibleRelaxed (pre ++ a :: suf) hwf x).mp h0 pre.length (pre_length_lt pre suf a)
+  rw [blockOffset_pre] at hb
+  have e : (pre ++ a :: suf)[pre.length]'(pre_length_lt pre suf a) = a := getElem_pre pre suf a _
+  rw [e] at hb
+  exact hb
+
+/-! ### small facts about a successful set-up -/
+
+theorem buildStorage_name (p : StorageP) (g : Grid) (T : Nat) (prices : Prices) (a : AssetProblem)
+    (h : buildStorage p g T prices = .ok a) : a.name = p.name := by
+  by_cases hne : g.dt.length = 0
+  · unfold buildStorage at h
+    rw [if_pos hne] at h
+    cases h; rfl
+  · obtain ⟨pr, bl, _, _, rfl⟩ := buildStorage_ok p g T prices a h hne
+    rfl
+
+/-- the mapping of a successful set-up only names variables of the storage -/
+theorem buildStorage_mapping_var (p : StorageP) (g : Grid) (T : Nat) (prices : Prices) (a : AssetProblem)
+    (h : buildStorage p g T prices = .ok a) : ∀ m ∈ a.mapping, m.var < a.n := by
+  intro m hm
+  by_cases hne : g.dt.length = 0
+  · unfold buildStorage at h
+    rw [if_pos hne] at h
+    cases h
+    simp at hm
+  · obtain ⟨pr, bl, _, _, rfl⟩ := buildStorage_ok p g T prices a h hne
+    show m.var < (costVec p g g.T pr).length
+    rw [costVec_length]
+    exact (storage_mapping_wf p g g.T m hm).2.1
+
+/-- distinct asset names and "every mapping row carries its asset's name" give the hypothesis the embedded
+    read-out theorems use -/
+theorem others_of_names (name : String) (bs : List AssetProblem)
+    (hname : ∀ b ∈ bs, ∀ m ∈ b.mapping, m.asset = b.name) (hne : ∀ b ∈ bs, b.name ≠ name) :
+    ∀ b ∈ bs, ∀ m ∈ b.mapping, m.asset ≠ name := by
+  intro b hb m hm
+  rw [hname b hb m hm]
+  exact hne b hb
+
+/-! ### read-outs only read the variables named in the mapping -/
+
+theorem chargeOut_congr (p : StorageP) (M : List MapRow) (n : Nat) (hM : ∀ m ∈ M, m.var < n) (y y' : Vec)
+    (h : ∀ j, j < n → y j = y' j) (t : Nat) :
+    chargeOut p M y t = chargeOut p M y' t ∧ dischargeOut p M y t = dischargeOut p M y' t := by
+  unfold chargeOut dischargeOut
+  constructor
+  · congr 1
+    apply List.map_congr_left
+    intro m hm
+    rw [h m.var (hM m (List.mem_filter.mp hm).1)]
+  · congr 1
+    apply List.map_congr_left
+    intro m hm
+    rw [h m.var (hM m (List.mem_filter.mp hm).1)]
+
+theorem firstRows_mem (M : List MapRow) : ∀ (seen : List Nat) (m : MapRow), m ∈ firstRows M seen → m ∈ M := by
+  induction M with
+  | nil => intro seen m hm; simp [firstRows] at hm
+  | cons m' M ih =>
+    intro seen m hm
+    unfold firstRows at hm
+    split at hm
+    · exact List.mem_cons_of_mem _ (ih _ _ hm)
+    · rcases List.mem_cons.mp hm with h | h
+      · exact h ▸ List.mem_cons_self
+      · exact List.mem_cons_of_mem _ (ih _ _ h)
+
+theorem fillInc_congr (p : StorageP) (M : List MapRow) (g : Grid) (n : Nat) (hM : ∀ m ∈ M, m.var < n) (y y' : Vec)
+    (h : ∀ j, j < n → y j = y' j) (t : Nat) : fillInc p M g y t = fillInc p M g y' t := by
+  unfold fillInc
+  congr 2
+  apply List.map_congr_left
+  intro m hm
+  have hm1 := (List.mem_filter.mp hm).1
+  unfold storageDispRows at hm1
+  have hm2 := (List.mem_filter.mp (firstRows_mem _ _ _ hm1)).1
+  rw [h m.var (hM m hm2)]
+
+theorem fillLevel_congr (p : StorageP) (M : List MapRow) (g : Grid) (n : Nat) (hM : ∀ m ∈ M, m.var < n) (y y' : Vec)
+    (h : ∀ j, j < n → y j = y' j) (Tfull : Nat) : fillLevel p M g Tfull y = fillLevel p M g Tfull y' := by
+  unfold fillLevel
+  have : fillInc p M g y = fillInc p M g y' := by
+    funext t; exact fillInc_congr p M g n hM y y' h t
+  rw [this]
+
 end EAO.StorageReadout
